@@ -18,6 +18,9 @@ COARSE = [
     ('{[#X][#Y][#Z]}.{#X=[#A][#S][!@l],#Y=[!@l][#S]([#B])[$@m],#Z=[$@m][#C]}', '{[#X][#Y][#Z]}.{#X=[#A][$@l],#Y=[$@l][#S]([#B])[$@m],#Z=[$@m][#C]}', 1),
     # the shared bead resolved one level further, down to atoms (nothing is shared at the last level: 0 shared atoms there)
     ('{[#X][#Y]}.{#X=[#A][#S][!@l],#Y=[!@l][#S][#B]}.{#A=OC[$],#S=[$]CC[$],#B=[$]N}', '{[#X][#Y]}.{#X=[#A][#S][$@l],#Y=[$@l][#B]}.{#A=OC[$],#S=[$]CC[$],#B=[$]N}', 0),
+    # shared nodes at the bead level and shared atoms at the last level of the same string
+    ('{[#P][#Q]}.{#P=[#A][#B][!@l],#Q=[!@l][#B][#C]}.{#A=OC[!],#B=[!]CC[!],#C=[!]CN}',
+     '{[#P][#Q]}.{#P=[#A][#B][$@l],#Q=[$@l][#C]}.{#A=OC[!],#B=[!]CC[!],#C=[!]CN}', 2),
 ]
 
 
@@ -128,7 +131,7 @@ class C10(core.Prop):
                                  concrete_label=lambda d: d.get('element') or d.get('atomname'))))
         nshared = COARSE[shape['idx']][2]
         nodes = over[1]['mol']['nodes']
-        cl.append(('merged_atoms_belong_to_both_nodes', sum(1 for d in nodes.values() if len(set(d.get('fragid', []))) > 1) == nshared))
+        cl.append(('merged_atoms_belong_to_both_nodes', sum(1 for d in nodes.values() if d.get('element') != 'H' and len(set(d.get('fragid', []))) > 1) == nshared))
         return cl
 
     def oracle(self, shape, inp, obs):
